@@ -312,3 +312,8 @@ def run(ck):
     rule_search_direction(ck)
     rule_round_robin(ck)
     rule_uncontrolled(ck)
+    # "the largest pilot that is feasible": the feasibility oracle the searches consult lets a constraint row pass only on its mode's
+    # own comparison and answers True only after every row (rules of the algorithm-side checker, shared with C06 / C07)
+    from .c06 import rule_utils, rule_row_acceptance
+    rule_utils(ck)
+    rule_row_acceptance(ck, rid="C08.R6")
